@@ -602,7 +602,8 @@ Lemma step_PInit g (ls : locals dq_local) t c pend s v n :
   Step g ls t c pend (fst (dq_tstep tt t g (ls t))) (snd (dq_tstep tt t g (ls t))).
 Proof.
   intros HC PC. pcfacts HC t PC HJ. destruct HJ as (E1 & Nin & Hop). unfold dq_tstep. rewrite PC. cbn [fst snd].
-  set (nd := {| nleft := null_link; nright := null_link; ndata := v |}).
+  set (nd := {| nleft := {| lptr := 0; ltag := ltag (nleft (heap g n)) + 1 |};
+                  nright := {| lptr := 0; ltag := ltag (nright (heap g n)) + 1 |}; ndata := v |}).
   destruct (step_priv g ls t c pend n nd (set_heap g (hupd (heap g) n nd)) (goto (ls t) (PLoad s n)) HC) as [C' DF];
     try reflexivity; auto.
   - rewrite PC. reflexivity.
@@ -627,7 +628,7 @@ Lemma step_PStore g (ls : locals dq_local) t c pend s n lrs :
   Step g ls t c pend (fst (dq_tstep tt t g (ls t))) (snd (dq_tstep tt t g (ls t))).
 Proof.
   intros HC PC. pcfacts HC t PC HJ. destruct HJ as ((E1 & Nin & Hop) & Sn & St & Nz). unfold dq_tstep. rewrite PC. cbn [fst snd].
-  set (nd := set_inward s (heap g n) {| lptr := aend s lrs; ltag := 0 |}).
+  set (nd := set_inward s (heap g n) {| lptr := aend s lrs; ltag := ltag (inward s (heap g n)) + 1 |}).
   destruct (step_priv g ls t c pend n nd (set_heap g (hupd (heap g) n nd)) (goto (ls t) (PCas s n lrs false)) HC) as [C' DF];
     try reflexivity; auto.
   - rewrite PC. reflexivity.
